@@ -19,6 +19,7 @@ EXPLANATION = (
     "except clause; the failure fields are built from the exception's class module/name, safeunicode and "
     "the extractor found by walking the MRO in order, nearest class first; safeunicode/saferepr are total; "
     "reporting a failed extractor cannot re-enter extraction (C07.cycles)."
+    '  The extractors eliot itself registers may put only JSON-encodable values into the failed end message (errno / strerror / constants / str(); filename, args, __cause__ are positively unsafe).'
 )
 RULE = ("obligation = rule instance bound to a method / branch / call site of Action, ErrorExtraction or "
         "_util; non-trivial = CFG paths examined")
